@@ -386,10 +386,16 @@ impl Drop for SendStream {
     fn drop(&mut self) {
         let mut conn = self.conn.state.lock("SendStream::drop");
 
+        if self.is_0rtt && conn.check_0rtt().is_err() {
+            // The stream is gone; its ID, and the waker registered under it, may belong to a stream
+            // opened since
+            return;
+        }
+
         // clean up any previously registered wakers
         conn.blocked_writers.remove(&self.stream);
 
-        if conn.error.is_some() || (self.is_0rtt && conn.check_0rtt().is_err()) {
+        if conn.error.is_some() {
             return;
         }
         match conn.inner.send_stream(self.stream).finish() {
